@@ -340,6 +340,9 @@ class BuiltinMixin:
     def bi_set(self, args, kw, n, frame):
         if not args:
             return self.new_dict([], kind="set")
+        if args[0].k == "py" and isinstance(args[0].r, tuple) and args[0].r[:2] == ("dictview", "keys"):
+            d = self.dict_copy(args[0].r[2])
+            return TV("val", d.r, "set")
         items = self.concrete_items(args[0])
         if items is not None:
             return self.new_dict([(x, tv_none()) for x in items], kind="set")
@@ -470,8 +473,38 @@ class BuiltinMixin:
     def m_str_rsplit(self, recv, args, kw, n):
         raise Unsupported("rsplit")
 
+    def bi_map(self, args, kw, n, frame):
+        return py(("map", args[0], args[1]), "iter")
+
+    def is_str_function(self, f):
+        """f is `str` or `lambda x: str(x)`"""
+        if f.k == "py" and isinstance(f.r, Builtin) and f.r.name == "str":
+            return True
+        if f.k == "py" and isinstance(f.r, PyFunc) and isinstance(f.r.node, ast.Lambda):
+            b = f.r.node.body
+            a = f.r.node.args.args
+            return (isinstance(b, ast.Call) and isinstance(b.func, ast.Name) and b.func.id == "str"
+                    and len(b.args) == 1 and isinstance(b.args[0], ast.Name) and len(a) == 1
+                    and b.args[0].id == a[0].arg)
+        return False
+
     def m_str_join(self, recv, args, kw, n):
         sep = self.as_str(recv)
+        x = args[0]
+        if x.k == "py" and isinstance(x.r, tuple) and x.r and x.r[0] == "map" and self.is_str_function(x.r[1]):
+            src = x.r[2]
+            items = self.concrete_items(src)
+            if items is not None:
+                if not items:
+                    return TV("str", z3.StringVal(""))
+                t = self.to_pystr(items[0])
+                for y in items[1:]:
+                    t = z3.Concat(t, sep, self.to_pystr(y))
+                return TV("str", z3.simplify(t))
+            # sep.join(str(e) for e in L) as one function of (sep, contents of L)
+            a = self.as_addr(src)
+            f = z3.Function("join_str", core.StrS, z3.ArraySort(core.IntS, Val), core.IntS, core.StrS)
+            return TV("str", f(sep, z3.Select(self.heap.cur["lelem"], a), self.hread("llen", (a,))))
         items = self.concrete_items(args[0])
         if items is not None:
             if not items:
